@@ -323,9 +323,6 @@ structure PlayerVol where
   smixVol : Int
   deriving Repr
 
-/-- `finalvol = finalvol * get_channel_vol(ctx, chn) / 100` -/
-def chanVolStage (fv chanVol : Int) : Int := Int.tdiv (fv * chanVol) (chanVolDiv.getD 100)
-
 /-- Which volume scales virtual channel `chn` (root channel `root`): the music volume
 `master_vol` (`true`) or the effects-mixer volume `smix_vol`.  Pinned code: `chn < m->mod.chn`
 only (`nnaRootRule = false`, finding F6: background voices, `chn ≥ num_tracks`, get `smix_vol`);
